@@ -192,6 +192,10 @@ def streams(tier, seed):
     while len(hier) < m:
         c = c01.gen_cases(rng, 1, 3 if tier == "quick" else 4, p_rep=0.6)[0]
         if has_rep(c["routine"]):
+            if rng.random() < 0.3:
+                # an additive resource DERIVED on the leaves (compile_routine(..., derived_resources=...)): a repeated routine
+                # whose child has it carries the sum over the repetitions, like any resource the child declares
+                c["derived_leaf"] = {"name": "dgates", "type": "additive", "of": rng.choice(["T", "G", "T"]), "a": rng.randint(2, 3), "b": rng.randint(0, 5)}
             hier.append(c)
     # ... and with the counts and sequence parameters left symbolic by compilation and supplied by the real evaluate():
     # every count in 0..5 (zero included: the empty repetition), every parameter assigned, compared with the compiled tree
